@@ -4,8 +4,8 @@
 EXTENDS ConfigLayers, Json
 
 CONSTANTS MaxLen,   \* operations per history
-          Emit,     \* print finished histories as JSON (simulation)
-          Small     \* BFS: restrict the operations to a small representative domain
+          Emit      \* TRUE: simulation draws random operations and prints finished histories as JSON;
+                    \* FALSE: BFS over the small representative operation domain SmallOps
 
 VARIABLES st, hist, last, done
 vars == <<st, hist, last, done>>
@@ -24,7 +24,8 @@ Entry(k) == LET c == RandomElement(1..12) IN
             ELSE IF k = "rl" /\ c <= 11 THEN RandomElement(LevelRaw)
             ELSE IF c <= 10 THEN RandomElement(Matching(k))
             ELSE RandomElement(AnyRaw)
-RandMap == [str |-> Entry("str"), arr |-> Entry("arr"), num |-> Entry("num"), flg |-> Entry("flg"),
+\* (the parameter keeps TLC from evaluating the definition once and caching it as a constant)
+RandMap(n) == [str |-> Entry("str"), arr |-> Entry("arr"), num |-> Entry("num"), flg |-> Entry("flg"),
             re |-> Entry("re"), al |-> Entry("al"), fn |-> Entry("fn"), beta |-> Entry("beta"),
             exp |-> Entry("exp"), rl |-> Entry("rl"), unk |-> Entry("unk")]
 
@@ -35,7 +36,7 @@ RandOp(f) ==
       [] f = "any"                 -> SetOp(L, RandomElement(Keys), RandomElement(AnyRaw))
       [] f \in {"level", "level2"} -> SetOp(L, "rl", RandomElement(LevelRaw))
       [] f \in {"gated", "gated2"} -> LET o == RandomElement({"beta", "exp"}) IN SetOp(L, o, RandomElement(Matching(o) \cup {"nil"}))
-      [] f \in {"replace", "replace2"} -> ReplaceOp(L, RandMap)
+      [] f \in {"replace", "replace2"} -> ReplaceOp(L, RandMap(Len(hist)))
       [] f = "saveload"            -> SaveLoadOp
 
 \* ---------------------------------------------------------------- small exhaustive domain (BFS)
